@@ -554,6 +554,8 @@ func vFrameWrite(o *vOut, l, seed int, mode string) string {
 		wait := 250 * time.Millisecond
 		if err != nil {
 			wait = 5 * time.Millisecond
+		} else if l > receiveMTU {
+			wait = 40 * time.Millisecond // expected to be dropped by the drain: nothing will come
 		}
 		for dl := time.Now().Add(wait); time.Now().Before(dl); time.Sleep(100 * time.Microsecond) {
 			conn.mu.Lock()
@@ -968,9 +970,9 @@ func vFrameGenOps(o *vOut, r *vRand, thorough bool, _ []string, emit func(string
 		if i < len(vFrameBoundaries)+6 || i%4 == 0 {
 			emit(fmt.Sprintf("frame write %d %d fail", l, seed))
 			emit(fmt.Sprintf("frame write %d %d tpc", l, seed))
-			if l <= receiveMTU || l > 65535 { // the buffered path is claimed for packets up to the receive MTU
-				emit(fmt.Sprintf("frame write %d %d tpcb", l, seed))
-			}
+			// the buffered path: delivery is claimed for packets up to the receive MTU; a longer one is dropped by the
+			// drain (tolerated), but must never reach the connection as a partial frame
+			emit(fmt.Sprintf("frame write %d %d tpcb", l, seed))
 		}
 	}
 
